@@ -34,12 +34,14 @@ def canon_atom(fi: Optional[FunctionInfo], e: ast.AST, stop: Iterable[str] = ())
     return canon(e)
 
 
+def canon_key(text: str) -> Tuple[str, bool]:
+    """(canonical key, flipped?) of an atom given as source text."""
+    return canon_atom(None, ast.parse(text, mode="eval").body)
+
+
 def key(text: str) -> str:
-    """Canonical key of an atom given as source text (for specifications)."""
-    k, flip = canon_atom(None, ast.parse(text, mode="eval").body)
-    if flip:
-        raise ValueError(f"specification atom must be positive: {text}")
-    return k
+    """Canonical key of an atom given as source text (a specification may spell an atom either way: 'a <= b' is kept as 'not (b < a)')."""
+    return canon_key(text)[0]
 
 
 @dataclass
@@ -100,14 +102,19 @@ def check_table(decs: Sequence[Decision], atoms: Sequence[str], spec: Callable[[
     equiv: other spellings of a specification atom {text: (atom, same polarity?)} (library knowledge, e.g. 'len(p.components) > 1' == 'p.value is not None').
     strict_foreign: a path whose outcome differs from the specification is a violation even when it also tests conditions the specification does not know
     (they are treated as independent of the specification's atoms)."""
-    eq = {key(k): (key(a), pol) for k, (a, pol) in (equiv or {}).items()}
+    eq = {}
+    for k, (a, pol) in (equiv or {}).items():
+        kk, flip = canon_key(k)
+        ka, fa = canon_key(a)
+        eq[kk] = (ka, pol != (flip != fa))
     given = list(atoms)
+    flips = {key(a): canon_key(a)[1] for a in atoms}
     atoms = [key(a) for a in atoms]
     back = dict(zip(atoms, given))
     _spec = spec
 
-    def spec(total):  # the specification sees the atoms under the spelling it was given
-        return _spec({back[k]: v for k, v in total.items()})
+    def spec(total):  # the specification sees the atoms under the spelling (and polarity) it was given
+        return _spec({back[k]: (v != flips[k]) for k, v in total.items()})
 
     dont_care = {key(a) for a in dont_care}
     violations: List[str] = []
